@@ -36,6 +36,23 @@ struct op_rec { int kind; int done; int ec; int rc; int rcs[3]; int nrcs; bool i
 // one message handed to the application by async_receive
 struct msg_rec { int ec; bool session_expired; uint8_t topic0, topic1; uint8_t payload0, payload1; uint32_t tlen, plen; bool has_exp; uint32_t exp; int nprops; };
 
+// a configured authenticator (Enhanced Authentication, method "m"): initial data, answer to a challenge, optional failure
+struct vk_authenticator {
+  uint8_t d_init, d_reply; bool fail_at_challenge;
+  template <typename CompletionToken>
+  decltype(auto) async_auth(auth_step_e step, std::string data, CompletionToken&& token) {
+    using Signature = void (error_code, std::string);
+    auto initiate = [this](auto handler, auth_step_e step, std::string) {
+      error_code ec; std::string out;
+      if (step == auth_step_e::client_initial) out = std::string(1, (char)d_init);
+      else if (step == auth_step_e::server_challenge) { out = std::string(1, (char)d_reply); if (fail_at_challenge) ec = asio::error::no_recovery; }
+      asio::post(vk::executor{}, asio::prepend(std::move(handler), ec, out));
+    };
+    return asio::async_initiate<CompletionToken, Signature>(initiate, token, step, std::move(data));
+  }
+  std::string_view method() const { return "m"; }
+};
+
 struct W {
   client_t* cp = new client_t(vk::executor{});
   client_t& c = *cp;
@@ -197,7 +214,12 @@ struct W {
 #endif
   // ------------------------------------------------------------ user operations
   int new_op(int kind) { vk_assert(nops < MAXOPS, "harness: op capacity"); op_rec& o = ops[nops]; o = op_rec{}; o.kind = kind; o.ec = -1; o.rc = -1; return nops++; }
-  void done(int i, error_code ec, int rc) { op_rec& o = ops[i]; o.done++; o.ec = ec.value(); o.rc = rc; o.inline_completion = in_api; o.t_done = vk_now_ms; }
+  // what the application does inside the completion handler of operation i: 0 nothing, 1 calls cancel()
+  int act[MAXOPS] = {}; bool acted = false;
+  void done(int i, error_code ec, int rc) {
+    op_rec& o = ops[i]; o.done++; o.ec = ec.value(); o.rc = rc; o.inline_completion = in_api; o.t_done = vk_now_ms;
+    if (act[i] == 1 && cp) { act[i] = 0; acted = true; c.cancel(); }
+  }
   template <qos_e q> int publish(std::string topic, std::string payload, retain_e retain = retain_e::no, publish_props props = {}) {
     int i = new_op(int(q)); in_api = true;
     auto slot = sig[i].slot();
